@@ -46,6 +46,8 @@ THEOREMS = [
     "MCHap.C01.recomb_step_kernel_db",
     "MCHap.C01.dosage_mass_order_independent",
     "MCHap.C01.exchange_db",
+    "MCHap.C01.exchangeStep_spec",
+    "MCHap.C01.exchangeStep_involutive",
     "MCHap.C01.assemblePrior_dosage_perm",
     "MCHap.C01.asmW_perm",
     "MCHap.C01.stationary_of_db",
